@@ -35,7 +35,7 @@ import (
 )
 
 func init() {
-	register(&Suite{Name: "e2e_metrics", Parallel: 12, Gen: genE2EM, Exec: execE2EM,
+	register(&Suite{Name: "e2e_metrics", Parallel: 6, Gen: genE2EM, Exec: execE2EM,
 		Rule: "1..5 series (names sharing prefixes; tag sets differing in one value / one key / subsets; keys that are suffixes of other keys; TSID-preimage collision pairs; values with spaces, unicode, punctuation) × float64 values from the adversarial Gorilla pool or small integers × timestamps (irregular steps at dod bucket edges, large gaps, bucket-aligned for every downsample interval used) × ingest histories with out-of-order points and 0..2 block and 0..2 segment rotations × selector and sum/min/max/avg/count by/without queries incl. range boundaries on points; each case in its own engine process, every query answered before and after a final rotation; non-trivial = ≥2 ingested points and ≥1 query"})
 }
 
